@@ -139,6 +139,12 @@ def check_fault(case, f, m, out, log, idx):
         elif len(r.errors) != len(hit):
             e = [x for x in r.errors if x not in hit][0]
             out.violate('collateral', 'collateral|%s|%s%s' % (sigbase, e.level, e.code), '%s: additional error: %r %s' % (tag, e, e.msg), fault=f)
+        else:
+            # the gap is where the SE now stands
+            so, pos = set_coords(mutated, where)
+            if not any(e.seg_count == pos for e in hit):
+                out.violate('position', 'wrong-position|' + sigbase, '%s: missing segment reported at position %r, the gap (now the SE) is at position %d' % (
+                    tag, sorted(set(e.seg_count for e in hit)), pos), fault=f)
         return
     if f.get('ctx') == 'gap':
         # a segment between the envelope segments belongs to no set: rejected, reported, and filed under no set
